@@ -20,6 +20,7 @@ package main
 
 import (
 	"bytes"
+	"errors"
 	"flag"
 	"fmt"
 	"math/big"
@@ -49,7 +50,13 @@ type write struct {
 type recDB struct {
 	inner *db.MemDatabase
 	log   []write
+	// fault injection: the failAt-th Batch.Write of this store returns an error and nothing of
+	// that batch reaches the store (a transient I/O error: the process goes on)
+	failAt, nWrites int
+	failed          bool
 }
+
+var errInjected = errors.New("injected write failure")
 
 func (r *recDB) Put(k, v []byte) error {
 	r.log = append(r.log, write{"put", []kv{{common.CopyBytes(k), common.CopyBytes(v)}}})
@@ -82,6 +89,12 @@ func (b *recBatch) Put(k, v []byte) error {
 func (b *recBatch) ValueSize() int { return b.size }
 func (b *recBatch) Reset()         { b.kvs, b.size = nil, 0 }
 func (b *recBatch) Write() error {
+	b.db.nWrites++
+	if b.db.nWrites == b.db.failAt {
+		b.db.failed = true
+		b.db.log = append(b.db.log, write{"failed", append([]kv{}, b.kvs...)})
+		return errInjected
+	}
 	b.db.log = append(b.db.log, write{"batch", append([]kv{}, b.kvs...)})
 	for _, e := range b.kvs {
 		b.db.inner.Put(e.k, e.v)
@@ -434,6 +447,7 @@ func main() {
 	nAcc := flag.Int("accounts", 300, "accounts")
 	nKeys := flag.Int("keys", 14, "storage keys per account")
 	salt := flag.Int64("salt", 0, "seed salt (shard)")
+	faultRuns := flag.Int("faultruns", 0, "for the first N histories: re-run once per physical write with that write returning an error")
 	corrupt := flag.String("corrupt", "", "sensitivity exercise: child (drop a logged child id) | content (flip a reopen verdict)")
 	flag.Parse()
 	if *scratch == "" {
@@ -449,15 +463,24 @@ func main() {
 	}
 	common.Init(0, "x.ini", "dev")
 	account.Init()
-	rng := vutil.Rng(3000 + *salt)
 	tr := vutil.NewTrace(outAbs)
 	totalWrites, totalNodes, totalReopens, maxBatches, nAborted := 0, 0, 0, 0, 0
+	nFailed, nAfterFailure := 0, 0
 	kindsAll := map[string]int{}
-	for h := 0; h < *histories; h++ {
+	// runHistory executes one history (the same one for the same h: its randomness derives from
+	// (VERIF_SEED, salt, h)) and emits its events.
+	//   failAt = 0: no fault; after EVERY physical write every root so far is re-opened (crash prefixes).
+	//   failAt = k: the k-th physical write returns an error and the process goes on - retry = true:
+	//               NodeDatabase.Commit is called again for the same root; retry = false: the next block
+	//               is built on top of the root whose commit failed and committed.  Roots whose commit
+	//               reported success are re-opened from the store after every reported success.
+	// It returns the number of physical writes attempted.
+	runHistory := func(h int, failAt int, retry bool) int {
+		rng := vutil.Rng(3000 + *salt*100003 + int64(h))
 		sharing := h%2 == 1 || *histories == 1
 		u := mkUniverse(rng, *nAcc, *nKeys)
 		inner, _ := db.NewMemDatabase()
-		rec := &recDB{inner: inner}
+		rec := &recDB{inner: inner, failAt: failAt}
 		adb := account.NewDatabase(rec)
 		type reopened struct {
 			hash                           common.Hash
@@ -507,20 +530,33 @@ func main() {
 					aborted = fmt.Sprintf("block %d: AccountDB.Commit: %v", b+1, err)
 					return
 				}
-				if err := adb.TrieDB().Commit(root, false); err != nil {
+				err = adb.TrieDB().Commit(root, false)
+				if err == errInjected && retry {
+					err = adb.TrieDB().Commit(root, false) // the caller tries again
+					nAfterFailure++
+				}
+				if err != nil && err != errInjected {
 					aborted = fmt.Sprintf("block %d: NodeDatabase.Commit: %v", b+1, err)
 				}
 			}()
+			if failAt > 0 && rec.failed && err == nil && aborted == "" && !retry {
+				nAfterFailure++
+			}
 			if n := len(rec.log) - before; n > maxBatches {
 				maxBatches = n
 			}
-			committedOK := aborted == ""
+			committedOK := aborted == "" && err == nil // false also when the injected failure was reported: not durable
 			if committedOK {
 				roots = append(roots, rootInfo{root, snap})
 			}
 			// every prefix of the write sequence: replay it into `crash` and re-open every root so far
 			for ; done < len(rec.log); done++ {
 				w := &rec.log[done]
+				if w.kind == "failed" {
+					nFailed++
+					steps = append(steps, step{w: w})
+					continue
+				}
 				for _, e := range w.kvs {
 					if w.kind == "delete" {
 						crash.Delete(e.k)
@@ -530,6 +566,9 @@ func main() {
 				}
 				st := step{w: w}
 				for j, ri := range roots {
+					if failAt > 0 {
+						break // fault runs re-open after every reported success instead (below)
+					}
 					present, resolvable, contentOK, pairs, why := reopen(crash, ri, u)
 					if *corrupt == "content" && present && (done+j)%5 == 0 {
 						contentOK = false
@@ -542,13 +581,24 @@ func main() {
 			if committedOK {
 				r := root
 				steps = append(steps, step{committed: &r})
-				prev = root
+				if failAt > 0 {
+					st := step{}
+					for j, ri := range roots {
+						present, resolvable, contentOK, pairs, why := reopen(crash, ri, u)
+						st.reopens = append(st.reopens, reopened{ri.hash, j + 1, present, resolvable, contentOK, pairs, why})
+						totalReopens++
+					}
+					steps = append(steps, st)
+				}
+			}
+			if aborted == "" {
+				prev = root // also after a reported failure: the node builds the next block on what it has in memory
 			}
 		}
 		// number the nodes in write order, then emit
 		m := &ids{of: map[string]int{}}
 		for _, st := range steps {
-			if st.w != nil && st.w.kind != "delete" {
+			if st.w != nil && st.w.kind != "delete" && st.w.kind != "failed" {
 				for _, e := range st.w.kvs {
 					m.id(e.k)
 				}
@@ -564,6 +614,24 @@ func main() {
 			if st.committed != nil {
 				tr.Emit(map[string]interface{}{"event": "Committed", "k": k, "kind": "", "first": seen + 1, "nodes": empty, "again": []int{},
 					"deleted": []int{}, "root": m.id(st.committed[:]), "roots": empty, "undecodable": 0, "written": written})
+				continue
+			}
+			emitReopen := func() {
+				rr := make([]interface{}, 0, len(st.reopens))
+				for _, ro := range st.reopens {
+					rr = append(rr, map[string]interface{}{"root": m.id(ro.hash[:]), "block": ro.block, "present": ro.present,
+						"resolvable": ro.resolvable, "contentOK": ro.contentOK, "pairs": ro.pairs, "why": ro.why})
+				}
+				tr.Emit(map[string]interface{}{"event": "Reopen", "k": k, "kind": "", "first": seen + 1, "nodes": empty, "again": []int{},
+					"deleted": []int{}, "root": 0, "roots": rr, "undecodable": 0, "written": written})
+			}
+			if st.w == nil { // fault runs: the re-opening after a reported success
+				emitReopen()
+				continue
+			}
+			if st.w.kind == "failed" {
+				tr.Emit(map[string]interface{}{"event": "FailedWrite", "k": k + 1, "kind": "failed", "first": seen + 1, "nodes": empty,
+					"again": []int{}, "deleted": []int{}, "root": 0, "roots": empty, "undecodable": 0, "written": written})
 				continue
 			}
 			k++
@@ -602,21 +670,27 @@ func main() {
 			tr.Emit(map[string]interface{}{"event": "Write", "k": k, "kind": st.w.kind, "first": first, "nodes": nodes, "again": again,
 				"deleted": deleted, "root": 0, "roots": empty, "undecodable": undec, "written": written})
 			totalWrites++
-			rr := make([]interface{}, 0, len(st.reopens))
-			for _, ro := range st.reopens {
-				rr = append(rr, map[string]interface{}{"root": m.id(ro.hash[:]), "block": ro.block, "present": ro.present,
-					"resolvable": ro.resolvable, "contentOK": ro.contentOK, "pairs": ro.pairs, "why": ro.why})
+			if failAt == 0 {
+				emitReopen()
 			}
-			tr.Emit(map[string]interface{}{"event": "Reopen", "k": k, "kind": "", "first": seen + 1, "nodes": empty, "again": []int{},
-				"deleted": []int{}, "root": 0, "roots": rr, "undecodable": 0, "written": written})
 		}
 		if aborted != "" {
 			nAborted++
 			tr.Emit(map[string]interface{}{"event": "Aborted", "k": k, "kind": aborted, "first": seen + 1, "nodes": empty, "again": []int{},
 				"deleted": []int{}, "root": 0, "roots": empty, "undecodable": 0, "written": written})
 		}
+		return rec.nWrites
+	}
+	for h := 0; h < *histories; h++ {
+		n := runHistory(h, 0, false)
+		if h < *faultRuns {
+			// the same history again, once per physical write, with that write failing
+			for k := 1; k <= n; k++ {
+				runHistory(h, k, k%2 == 0)
+			}
+		}
 	}
 	tr.Close()
-	fmt.Printf("c03: histories=%d writes=%d nodes=%d reopens=%d maxBatchesPerCommit=%d aborted=%d events=%d kinds=%v\n",
-		*histories, totalWrites, totalNodes, totalReopens, maxBatches, nAborted, tr.N, kindsAll)
+	fmt.Printf("c03: histories=%d writes=%d nodes=%d reopens=%d maxBatchesPerCommit=%d aborted=%d failedWrites=%d successAfterFailure=%d events=%d kinds=%v\n",
+		*histories, totalWrites, totalNodes, totalReopens, maxBatches, nAborted, nFailed, nAfterFailure, tr.N, kindsAll)
 }
